@@ -28,10 +28,15 @@ UNITS = {
 }
 
 UNITS["C02"] = [
+    dict(kind="depcheck", name="depcheck_c02"),
     dict(kind="structural", name="c02_from_conn", check="from_conn", file="crates/klukai-types/src/agent.rs", fn="from_conn", impl="^impl BookedVersions$",
          trusted=["insert_partial only raises the head (proved: unit c02_booked); the row loops visit every persisted row (rusqlite)"]),
     dict(kind="structural", name="c02_sql_scoping", check="sql_actor_scoping", file="crates/klukai-types/src/agent.rs",
          trusted=["heuristic SQL reading (see c03_sql_scoping)"]),
+    dict(kind="verus", name="c02_sync", template="specs/c02_sync.vrs",
+         under_contract=["frag_generate_sync_actor"], vacuity=["frag_generate_sync_actor"],
+         assumptions=["per-actor body of generate_sync as a fragment (read guard -> stand-in struct; `continue` -> return); BTreeMap::iter().filter(closure) replaced by a contract stand-in that keeps the real closure body",
+                      "PartialVersion::is_complete is used through its contract (same text as proved in unit c02_partial)"]),
     dict(kind="verus", name="c02_gaps", template="specs/c02_gaps.vrs",
          under_contract=["VersionsSnapshot::compute_gaps_change"], vacuity=["compute_gaps_change"],
          assumptions=["contract of rangemap::RangeInclusiveSet (insert/remove/get/overlapping/into_iter; lib/rangeset.vrs) and of HashSet<RangeInclusive> (set of (start,end) pairs)",
@@ -77,12 +82,13 @@ UNITS["C18"] = [
 ]
 
 UNITS["C04"] = [
+    dict(kind="depcheck", name="depcheck_c04"),
     dict(kind="verus", name="c04_needs", template="specs/c04_needs.vrs",
-         under_contract=["frag_skip", "frag_full", "frag_missing"],
-         vacuity=["frag_skip", "frag_full", "frag_missing"],
+         under_contract=["frag_skip", "frag_full", "frag_missing", "frag_other_haves", "frag_other_seqs_haves"],
+         vacuity=["frag_skip", "frag_full", "frag_missing", "frag_other_haves", "frag_other_seqs_haves"],
          assumptions=["fragments of compute_available_needs are wrapped as functions over their free variables (self -> this, `continue` -> return Exit::Continue)",
                       "contracts of RangeInclusiveSet::overlapping, HashMap::{get,entry().or_default()}, cmp::{max,min} on &newtype (lib/*.vrs)",
-                      "NOT under contract: construction of other_haves, the Partial branches (flat_map/collect closure chain)"]),
+                      "NOT under contract: the flat_map/collect closure chain that intersects our missing seqs with the peer's held seqs, and the max-end computation"]),
 ]
 
 UNITS["C17"] = [
@@ -111,6 +117,7 @@ UNITS["C16"] = [
 ]
 
 UNITS["C05"] = [
+    dict(kind="depcheck", name="depcheck_c05"),
     dict(kind="structural", name="c05_sql_scoping", check="sql_actor_scoping", file="crates/klukai-agent/src/api/peer/mod.rs",
          trusted=["heuristic SQL reading (see c03_sql_scoping)"]),
     dict(kind="verus", name="c05_send", template="specs/c05_send.vrs",
@@ -126,6 +133,7 @@ UNITS["C05"] = [
 ]
 
 UNITS["C03"] = [
+    dict(kind="depcheck", name="depcheck_c03"),
     dict(kind="structural", name="c03_sql_scoping", check="sql_actor_scoping", file="crates/klukai-agent/src/agent/util.rs",
          trusted=["heuristic SQL reading: WHERE levels are split at parenthesised sub-SELECTs; only the presence of an actor constraint is checked, not its parameter binding"]),
     dict(kind="verus", name="c03_batch", template="specs/c03_batch.vrs",
@@ -138,6 +146,7 @@ UNITS["C03"] = [
 ]
 
 UNITS["C10"] = [
+    dict(kind="depcheck", name="depcheck_c10"),
     dict(kind="verus", name="c10_ingest", template="specs/c10_ingest.vrs",
          under_contract=["frag_suppress", "frag_drop_oldest", "frag_cache_insert", "frag_cleared_decision"],
          vacuity=["frag_suppress", "frag_drop_oldest", "frag_cache_insert", "frag_cleared_decision"],
@@ -155,6 +164,7 @@ UNITS["C14"] = [
 ]
 
 UNITS["C09"] = [
+    dict(kind="depcheck", name="depcheck_c09"),
     dict(kind="kani", name="c09_pack", crate="kani/c09_pack", use_repo_lock=True,
          harnesses=[dict(name="width_rule_i64", complete=True, bound="none: full i64 domain, the only loop is the 8-iteration reference loop (unwinding assertions on)"),
                     dict(name="width_rule_i32", complete=True, bound="none: full i32 domain")],
